@@ -322,6 +322,7 @@ def borrow(rep, P, rule_fn, label, only=None, **kw):
     (properties overlap: the same structural clause can be a necessary condition of several)."""
     sub = type(rep)(rep.prop, rep.tier, rep.variant)
     rule_fn(P, sub, **kw)
+    rep.broken.extend("[borrowed %s] %s" % (label, b) for b in getattr(sub, "broken", []))
     n = 0
     for o in sub.obligations:
         if only is not None and o["rule"] not in only:
@@ -329,7 +330,8 @@ def borrow(rep, P, rule_fn, label, only=None, **kw):
         n += 1
         rep.ob(label, "[%s] %s" % (o["rule"], o["instance"]), o["ok"], o["detail"], o["loc"],
                site="%s/%s" % (label, o["instance"][:150]))
-    rep.need(n >= 1, "borrowed rule %s matched nothing" % label)
+    if not getattr(sub, "broken", None):
+        rep.need(n >= 1, "borrowed rule %s matched nothing" % label)
 
 
 def run_shared(P, rep, which=("X1", "X2", "X3")):
